@@ -221,6 +221,7 @@ func genStep(rt *rapid.T, p *Profile, cfg *Config, i int) Step { //nolint:cyclop
 		if rapid.IntRange(0, 5).Draw(rt, "lifeRandom") == 0 {
 			st.Life = int64(rapid.Uint32().Draw(rt, "lifeR"))
 		}
+		st.RespLost = rapid.IntRange(0, 7).Draw(rt, "refreshRespLost") == 0
 		if rapid.IntRange(0, 7).Draw(rt, "refreshTie") == 0 {
 			st.Rel = "tie" // sent at the very instant the allocation expires
 		} else if rapid.IntRange(0, 7).Draw(rt, "rfam") == 0 || (p.Odd && rapid.IntRange(0, 5).Draw(rt, "rfamOdd") == 0) {
